@@ -36,7 +36,9 @@ def _vacuity(stim):
     """every event kind and consumer occurs among the TLC stimuli (a count, not an oracle)"""
     need = ['"ev":"next"', '"ev":"is_exhausted"', '"ev":"drop"', '"ev":"resume"', '"consumer":"take"',
             '"consumer":"ue"', '"consumer":"il"', '"consumer":"lift"', '"consumer":"il_clone"', '"consumer":"ue_clone"',
-            '"consumer":"take_clone"', '"ev":"clone"', '"fmt":"i32"', '"fmt":"i64"', '"byref":true', '"k":"byref"', '"k":"srcs"']
+            '"consumer":"take_clone"', '"ev":"clone"', '"fmt":"i32"', '"fmt":"i64"', '"byref":true', '"k":"byref"', '"k":"srcs"',
+            # statically typed receiver chains (every stimulus names its depth), the far end of delay's range
+            '"st":0', '"st":1', '"st":2', '"k":"delaymax"']
     seen = set()
     with open(stim) as f:
         for line in f:
@@ -70,7 +72,10 @@ def pipeline(ctx, replay=None, prop="all"):
                      "every depth-1 adaptor variant also in i32 stereo and i64 mono (values wider than the float mantissa)",
             "terms": "all depth<=1 terms (every closure / gain / delay variant, every leaf kind) in 3 sorts; "
                      "depth-2 terms (one variant per adaptor kind over from_iter leaves) in "
-                     + ("i16 stereo over sources {2,4}" if tier == "quick" else "i16 stereo over sources {1,3,4}, u8 mono and f64 stereo over sources {2,4}"),
+                     + ("i16 stereo over sources {2,4}" if tier == "quick" else "i16 stereo over sources {1,3,4}, u8 mono and f64 stereo over sources {2,4}")
+                     + "; combiner on combiner; delay(usize::MAX - m) alone, under / over delay(0..2), on itself",
+            "dispatch": "every i16-stereo scenario is also executed with its receiver chain statically typed (st = 1, 2): "
+                        "every ordered pair (adaptor method, receiver adaptor type) and every (method, source type)",
         }
         rnd = os.path.join(ctx.work, "signal_rand.ndjson")
         ctx.harness(hx, ["gen", str(ctx.seed), tier, rnd])
@@ -98,7 +103,16 @@ ASSUME_COMMON = [
     "[-1,1)); an execution leaving it is skipped (UNDEF), not judged",
     "map / zip_map closures come from a fixed menu (id, rev, inv, from_signed, from_float; first, second, interleave, addamp)",
     "exhaustive: terms to depth 2 over sources of 0..3 frames; random: depth <= 5, sources <= 40 frames",
-    "rate conversion (MulHz), fork, bus, buffered, oscillators are other families' components",
+    "rate conversion (MulHz), fork, bus, buffered are other families' components; oscillators / noise / phase and step "
+    "signals occur as OPAQUE sources only (f64 mono): what they yield is taken from an identically built twin recorded at "
+    "reset, the adaptors over them are judged as over any source",
+    "static dispatch: terms are built node-by-node behind boxes (every method called on the box type) and, for i16 stereo "
+    "and f64 mono, also with the receiver chain (root and first operands, 1 or 2 levels; second operands of combiners are "
+    "arguments and stay boxed) as one concretely typed stack, each call site spelled with the receiver's type constructor "
+    "so that inherent methods and trait-method overrides of concrete adaptor / source types are reached; take / "
+    "until_exhausted / into_interleaved_samples / by_ref are called on the concrete type for 1-level stacks; a bare source "
+    "inside the static region has no pull counter (its frames are judged, its pulls are not); static stacks are not cloned",
+    "delay counts: 0..7 and usize::MAX - {0,1,2} (`delaymax`: more silence than any execution observes)",
 ]
 
 
